@@ -297,7 +297,10 @@ class Engine(Interp, InterpExpr, InterpComp, InterpStmt, InterpCall, InterpBuilt
         for c2 in [con] + others:
             if c2.effect and c2.effect not in logged:
                 logged.add(c2.effect)
-                self.effects.append((c2.effect, [vars_[a.arg] for a in fi.node.args.args if a.arg != 'self']))
+                # `effect_receiver = True`: the receiver is logged as first argument (one inherited method called on
+                # several objects, e.g. Commander.check on the Starter and on the Stopper)
+                recv = bool(c2.attrs.get('effect_receiver'))
+                self.effects.append((c2.effect, [vars_[a.arg] for a in fi.node.args.args if a.arg != 'self' or recv]))
             if c2 is not con:
                 self.by_contract.add(c2.target)
         if isinstance(con.returns, (tuple, list)):
